@@ -66,7 +66,9 @@ class FnTrans:
         self.helpers = []        # (text) loop helper definitions emitted before the function
         self.nloops = 0
         self._loopctx = None     # inside a loop body: dict(carried=[c names], ret_type=...)
-        self.members = job.get("members", {}).get(self.name, {})   # member name -> (lean name, lean type)
+        self.members = dict(job.get("members_all", {}))            # member name -> (lean name, lean type)
+        self.members.update(job.get("members", {}).get(self.name, {}))
+        self.this_params = list(job.get("this_params", []))        # [(lean name, lean type)] appended to every signature
         self.params = []        # (cname, leanname, leantype, kind) kind in val|out
         self.defaults = []
         for p in decl.get("inner", []):
@@ -239,6 +241,27 @@ class FnTrans:
         if k == "CXXMemberCallExpr":
             me = inner[0]
             mname = me.get("name")
+            mbase = me["inner"][0]
+            while mbase.get("kind") == "ImplicitCastExpr": mbase = mbase["inner"][0]
+            # this->member->method(...)  mapped to an explicit parameter by the job
+            if mbase.get("kind") == "MemberExpr":
+                bb = mbase["inner"][0]
+                while bb.get("kind") == "ImplicitCastExpr": bb = bb["inner"][0]
+                key = (mbase.get("name"), mname)
+                if bb.get("kind") == "CXXThisExpr" and key in self.job.get("member_calls", {}):
+                    ln, lt = self.job["member_calls"][key]
+                    return ln, lt, None
+            # this->method(args): call of another translated method, passing the member parameters along
+            if mbase.get("kind") == "CXXThisExpr" and mname in self.known:
+                g = self.known[mname]
+                args, pres = [], []
+                for i2, (pc, pl, pt, pk) in enumerate(g.params):
+                    t2, ty2, p2 = self.expr(inner[1 + i2], env)
+                    if ty2 != pt: raise Unsupported("%s: arg type %s for %s" % (self.name, ty2, mname))
+                    args.append(t2); pres.append(p2)
+                args += [ln for ln, lt in g.this_params]
+                call = "(%s %s)" % (mname, " ".join(args))
+                return call, g.ret_type, self.conj(*pres, "%s_pre %s" % (mname, " ".join(args)))
             base, tb, pb = self.expr(me["inner"][0], env)
             if mname == "size" and tb.startswith("List "):
                 return "%s.length" % base, "Nat", pb
@@ -425,6 +448,10 @@ class FnTrans:
             if self._loopctx is not None:
                 return "(some (%s), %s)" % (r, self.carried_tuple(env)), "true"
             return ("some (%s)" % r if getattr(self, "_retwrap", None) else r), "true"
+        if k == "IfStmt" and self.job.get("skip_if_refs"):
+            ctext = json.dumps(s["inner"][0])
+            if any(('"name": "%s' % r) in ctext for r in self.job["skip_if_refs"]):
+                return nxt(env)        # logging statement (FILE_LOG): no effect on the result
         if k == "IfStmt":
             parts = [c for c in s["inner"] if isinstance(c, dict)]
             c, tc, pc = self.expr(parts[0], env)
@@ -636,7 +663,7 @@ class FnTrans:
         for (cn, ln, lt, kind) in self.params:
             if kind == "val": sig.append("(%s : %s)" % (ln, lt))
         extra = self.job.get("extra_params", {}).get(self.name, [])
-        for (ln, lt) in extra: sig.append("(%s : %s)" % (ln, lt))
+        for (ln, lt) in list(extra) + self.this_params: sig.append("(%s : %s)" % (ln, lt))
         # out params start as `default` locals
         pre_lets = ""
         for (cn, ln, lt, kind) in self.outs:
